@@ -30,54 +30,117 @@ theorem lt_of_get {l : List α} {i : Nat} {a : α} (h : l[i]? = some a) : i < l.
 
 /-! ### counting invariant (both modes) -/
 
+/-- the five counts that change when instance `i` moves from `old` to `new` -/
+theorem counts_move (l : List Pc) (i : Nat) (old new : Pc) (h : l[i]? = some old) :
+    ((l.set i new).count .wait + (if old = .wait then 1 else 0) = l.count .wait + (if new = .wait then 1 else 0)) ∧
+    ((l.set i new).count .decide + (if old = .decide then 1 else 0) = l.count .decide + (if new = .decide then 1 else 0)) ∧
+    ((l.set i new).count .firing + (if old = .firing then 1 else 0) = l.count .firing + (if new = .firing then 1 else 0)) ∧
+    ((l.set i new).count .shot + (if old = .shot then 1 else 0) = l.count .shot + (if new = .shot then 1 else 0)) ∧
+    ((l.set i new).count .release + (if old = .release then 1 else 0) = l.count .release + (if new = .release then 1 else 0)) :=
+  ⟨count_set_of l i old new .wait h, count_set_of l i old new .decide h, count_set_of l i old new .firing h,
+   count_set_of l i old new .shot h, count_set_of l i old new .release h⟩
+
 structure InvA (c : Cfg) (s : St) : Prop where
   len : s.pcs.length = c.instances
-  held : s.acquired = s.released + s.pcs.count .wait + s.pcs.count .decide + s.pcs.count .release
+  startedLe : s.started ≤ c.instances
+  idleHi : ∀ i : Nat, s.started ≤ i → i < c.instances → s.pcs[i]? = some Pc.idle
+  idleLo : ∀ i : Nat, i < s.started → s.pcs[i]? ≠ some Pc.idle
+  held : s.acquired = s.released + s.pcs.count .wait + s.pcs.count .decide + s.pcs.count .firing
+            + s.pcs.count .shot + s.pcs.count .release
   classified : s.acquired = s.fired + s.discarded + s.unfired + s.pcs.count .wait + s.pcs.count .decide
+            + s.pcs.count .firing
   ammo : match c.ammo with
     | none => s.ammoLeft = none
     | some a0 => ∃ a, s.ammoLeft = some a ∧ s.acquired + a = a0
-  metrics : s.request = s.fired ∧ s.response = s.fired
+  metrics : s.request = s.fired + s.pcs.count .firing ∧ s.response + s.pcs.count .shot = s.fired
   discOff : c.discardOn = false → s.discarded = 0
 
 theorem init_invA (c : Cfg) : InvA c (init c) := by
-  refine ⟨by simp [init], ?_, ?_, ?_, ⟨rfl, rfl⟩, fun _ => rfl⟩
+  refine ⟨by simp [init], by simp [init], ?_, ?_, ?_, ?_, ?_, ?_, fun _ => rfl⟩
+  · intro i _ hi; simp [init, List.getElem?_replicate, hi]
+  · intro i hi; simp [init] at hi
   · simp [init, List.count_replicate]
   · simp [init, List.count_replicate]
   · cases h : c.ammo <;> simp [init, h]
+  · simp [init, List.count_replicate]
+
+/-- a move of a STARTED instance `i` from `old` to `new ≠ idle` keeps the idle bookkeeping -/
+theorem idle_move {c : Cfg} {s : St} (hlen : s.pcs.length = c.instances)
+    (hHi : ∀ i : Nat, s.started ≤ i → i < c.instances → s.pcs[i]? = some Pc.idle)
+    (hLo : ∀ i : Nat, i < s.started → s.pcs[i]? ≠ some Pc.idle)
+    {i : Nat} {old new : Pc} (h : s.pcs[i]? = some old) (hold : old ≠ .idle) (hnew : new ≠ .idle) :
+    (∀ k : Nat, s.started ≤ k → k < c.instances → (s.pcs.set i new)[k]? = some Pc.idle) ∧
+    (∀ k : Nat, k < s.started → (s.pcs.set i new)[k]? ≠ some Pc.idle) := by
+  have hi := lt_of_get h
+  have hist : i < s.started := by
+    rcases Nat.lt_or_ge i s.started with h1 | h1
+    · exact h1
+    · have := hHi i h1 (by omega); rw [h] at this; exact absurd (Option.some.inj this) hold
+  constructor
+  · intro k hk1 hk2
+    rw [List.getElem?_set]
+    have : i ≠ k := by omega
+    simp [this]; exact hHi k hk1 hk2
+  · intro k hk
+    rw [List.getElem?_set]
+    by_cases hik : i = k
+    · simp [hik]; intro _; exact fun h' => hnew h'
+    · simp [hik]; exact hLo k hk
 
 theorem step_invA {c : Cfg} {s s' : St} {e : Ev} (hi : InvA c s) (hs : step c s e = some s') : InvA c s' := by
-  obtain ⟨hlen, hheld, hcls, hammo, hmet, hdis⟩ := hi
+  obtain ⟨hlen, hsl, hHi, hLo, hheld, hcls, hammo, hmet, hdis⟩ := hi
   cases e with
+  | start i =>
+    simp only [step] at hs
+    split at hs
+    · rename_i h
+      cases hs
+      obtain ⟨hist, h⟩ := h
+      obtain ⟨cw, cd, cf, cs, cr⟩ := counts_move s.pcs i .idle .check h
+      simp at cw cd cf cs cr
+      have hi := lt_of_get h
+      refine ⟨by simpa using hlen, by simp; omega, ?_, ?_, by simp; omega, by simp; omega, hammo, by simp; omega, hdis⟩
+      · intro k hk1 hk2
+        simp only at hk1 ⊢
+        rw [List.getElem?_set]
+        have : i ≠ k := by omega
+        simp [this]; exact hHi k (by omega) hk2
+      · intro k hk
+        simp only at hk ⊢
+        rw [List.getElem?_set]
+        by_cases hik : i = k
+        · subst hik; simp [hi]
+        · simp [hik]; exact hLo k (by omega)
+    · cases hs
   | chk i left =>
     simp only [step] at hs
     split at hs
     · rename_i h
       cases hs
-      have cw := count_set_of s.pcs i .check (if left = 0 then .done else .acquire) .wait h.1
-      have cd := count_set_of s.pcs i .check (if left = 0 then .done else .acquire) .decide h.1
-      have cr := count_set_of s.pcs i .check (if left = 0 then .done else .acquire) .release h.1
-      refine ⟨by simpa using hlen, ?_, ?_, hammo, hmet, hdis⟩ <;> (by_cases hl : left = 0 <;> simp [hl] at cw cd cr ⊢ <;> omega)
+      obtain ⟨cw, cd, cf, cs, cr⟩ := counts_move s.pcs i .check (if left = 0 then .done else .acquire) h.1
+      obtain ⟨iH, iL⟩ := idle_move (new := if left = 0 then .done else .acquire) hlen hHi hLo h.1 (by decide)
+        (by by_cases hl : left = 0 <;> simp [hl])
+      refine ⟨by simpa using hlen, hsl, iH, iL, ?_, ?_, hammo, ?_, hdis⟩ <;>
+        (by_cases hl : left = 0 <;> simp [hl] at cw cd cf cs cr ⊢ <;> omega)
     · cases hs
   | acq i =>
     simp only [step] at hs
     split at hs
     · rename_i h
-      have cw := count_set_of s.pcs i .acquire .wait .wait h
-      have cd := count_set_of s.pcs i .acquire .wait .decide h
-      have cr := count_set_of s.pcs i .acquire .wait .release h
-      simp at cw cd cr
+      obtain ⟨cw, cd, cf, cs, cr⟩ := counts_move s.pcs i .acquire .wait h
+      simp at cw cd cf cs cr
+      obtain ⟨iH, iL⟩ := idle_move (new := .wait) hlen hHi hLo h (by decide) (by decide)
       split at hs
       · rename_i ha
         cases hs
-        refine ⟨by simpa using hlen, by simp; omega, by simp; omega, ?_, hmet, hdis⟩
+        refine ⟨by simpa using hlen, hsl, iH, iL, by simp; omega, by simp; omega, ?_, by simp; omega, hdis⟩
         cases hc : c.ammo with
         | none => simpa [hc] using ha
         | some a0 => rw [hc] at hammo; obtain ⟨a, h1, _⟩ := hammo; rw [ha] at h1; cases h1
       · cases hs
       · rename_i a ha
         cases hs
-        refine ⟨by simpa using hlen, by simp; omega, by simp; omega, ?_, hmet, hdis⟩
+        refine ⟨by simpa using hlen, hsl, iH, iL, by simp; omega, by simp; omega, ?_, by simp; omega, hdis⟩
         cases hc : c.ammo with
         | none => rw [hc] at hammo; rw [ha] at hammo; cases hammo
         | some a0 =>
@@ -90,75 +153,93 @@ theorem step_invA {c : Cfg} {s s' : St} {e : Ev} (hi : InvA c s) (hs : step c s 
     split at hs
     · rename_i h
       cases hs
-      have cw := count_set_of s.pcs i .acquire .done .wait h.1
-      have cd := count_set_of s.pcs i .acquire .done .decide h.1
-      have cr := count_set_of s.pcs i .acquire .done .release h.1
-      simp at cw cd cr
-      exact ⟨by simpa using hlen, by simp; omega, by simp; omega, hammo, hmet, hdis⟩
+      obtain ⟨cw, cd, cf, cs, cr⟩ := counts_move s.pcs i .acquire .done h.1
+      simp at cw cd cf cs cr
+      obtain ⟨iH, iL⟩ := idle_move (new := .done) hlen hHi hLo h.1 (by decide) (by decide)
+      exact ⟨by simpa using hlen, hsl, iH, iL, by simp; omega, by simp; omega, hammo, by simp; omega, hdis⟩
     · cases hs
   | tokOk i =>
     simp only [step] at hs
     split at hs
     · rename_i h
       cases hs
-      have cw := count_set_of s.pcs i .wait .decide .wait h.1
-      have cd := count_set_of s.pcs i .wait .decide .decide h.1
-      have cr := count_set_of s.pcs i .wait .decide .release h.1
-      simp at cw cd cr
+      obtain ⟨cw, cd, cf, cs, cr⟩ := counts_move s.pcs i .wait .decide h.1
+      simp at cw cd cf cs cr
+      obtain ⟨iH, iL⟩ := idle_move (new := .decide) hlen hHi hLo h.1 (by decide) (by decide)
       unfold St.draw
-      split <;> exact ⟨by simpa using hlen, by simp; omega, by simp; omega, hammo, hmet, hdis⟩
+      split <;> exact ⟨by simpa using hlen, hsl, iH, iL, by simp; omega, by simp; omega, hammo, by simp; omega, hdis⟩
     · cases hs
   | tokEnd i =>
     simp only [step] at hs
     split at hs
     · rename_i h
       cases hs
-      have cw := count_set_of s.pcs i .wait .release .wait h.1
-      have cd := count_set_of s.pcs i .wait .release .decide h.1
-      have cr := count_set_of s.pcs i .wait .release .release h.1
-      simp at cw cd cr
-      exact ⟨by simpa using hlen, by simp; omega, by simp; omega, hammo, hmet, hdis⟩
+      obtain ⟨cw, cd, cf, cs, cr⟩ := counts_move s.pcs i .wait .release h.1
+      simp at cw cd cf cs cr
+      obtain ⟨iH, iL⟩ := idle_move (new := .release) hlen hHi hLo h.1 (by decide) (by decide)
+      exact ⟨by simpa using hlen, hsl, iH, iL, by simp; omega, by simp; omega, hammo, by simp; omega, hdis⟩
     · cases hs
-  | shoot i =>
+  | reqAdd i =>
     simp only [step] at hs
     split at hs
     · rename_i h
       cases hs
-      have cw := count_set_of s.pcs i .decide .release .wait h
-      have cd := count_set_of s.pcs i .decide .release .decide h
-      have cr := count_set_of s.pcs i .decide .release .release h
-      simp at cw cd cr
-      exact ⟨by simpa using hlen, by simp; omega, by simp; omega, hammo, by simp; omega, hdis⟩
+      obtain ⟨cw, cd, cf, cs, cr⟩ := counts_move s.pcs i .decide .firing h
+      simp at cw cd cf cs cr
+      obtain ⟨iH, iL⟩ := idle_move (new := .firing) hlen hHi hLo h (by decide) (by decide)
+      exact ⟨by simpa using hlen, hsl, iH, iL, by simp; omega, by simp; omega, hammo, by simp; omega, hdis⟩
+    · cases hs
+  | shoot i k =>
+    simp only [step] at hs
+    split at hs
+    · rename_i h
+      cases hs
+      obtain ⟨cw, cd, cf, cs, cr⟩ := counts_move s.pcs i .firing .shot h.1
+      simp at cw cd cf cs cr
+      obtain ⟨iH, iL⟩ := idle_move (new := .shot) hlen hHi hLo h.1 (by decide) (by decide)
+      exact ⟨by simpa using hlen, hsl, iH, iL, by simp; omega, by simp; omega, hammo, by simp; omega, hdis⟩
+    · cases hs
+  | respAdd i =>
+    simp only [step] at hs
+    split at hs
+    · rename_i h
+      cases hs
+      obtain ⟨cw, cd, cf, cs, cr⟩ := counts_move s.pcs i .shot .release h
+      simp at cw cd cf cs cr
+      obtain ⟨iH, iL⟩ := idle_move (new := .release) hlen hHi hLo h (by decide) (by decide)
+      exact ⟨by simpa using hlen, hsl, iH, iL, by simp; omega, by simp; omega, hammo, by simp; omega, hdis⟩
     · cases hs
   | discard i =>
     simp only [step] at hs
     split at hs
     · rename_i h
       cases hs
-      have cw := count_set_of s.pcs i .decide .release .wait h.1
-      have cd := count_set_of s.pcs i .decide .release .decide h.1
-      have cr := count_set_of s.pcs i .decide .release .release h.1
-      simp at cw cd cr
-      exact ⟨by simpa using hlen, by simp; omega, by simp; omega, hammo, hmet, fun hoff => by simp [hoff] at h⟩
+      obtain ⟨cw, cd, cf, cs, cr⟩ := counts_move s.pcs i .decide .release h.1
+      simp at cw cd cf cs cr
+      obtain ⟨iH, iL⟩ := idle_move (new := .release) hlen hHi hLo h.1 (by decide) (by decide)
+      exact ⟨by simpa using hlen, hsl, iH, iL, by simp; omega, by simp; omega, hammo, by simp; omega,
+        fun hoff => by simp [hoff] at h⟩
     · cases hs
-  | rel i =>
+  | rel i k =>
     simp only [step] at hs
     split at hs
     · rename_i h
       cases hs
-      have cw := count_set_of s.pcs i .release .check .wait h
-      have cd := count_set_of s.pcs i .release .check .decide h
-      have cr := count_set_of s.pcs i .release .check .release h
-      simp at cw cd cr
-      exact ⟨by simpa using hlen, by simp; omega, by simp; omega, hammo, hmet, hdis⟩
+      obtain ⟨cw, cd, cf, cs, cr⟩ := counts_move s.pcs i .release .check h.1
+      simp at cw cd cf cs cr
+      obtain ⟨iH, iL⟩ := idle_move (new := .check) hlen hHi hLo h.1 (by decide) (by decide)
+      exact ⟨by simpa using hlen, hsl, iH, iL, by simp; omega, by simp; omega, hammo, by simp; omega, hdis⟩
     · cases hs
 
 /-! ### shared profile -/
 
 def Parked (p : Option Pc) : Prop := p = some Pc.release ∨ p = some Pc.check ∨ p = some Pc.done
 
+/-- the instance has drawn a token in this or an earlier iteration and is not waiting for one -/
+def Drawn (p : Option Pc) : Prop := p = some Pc.decide ∨ p = some Pc.firing ∨ p = some Pc.shot ∨ Parked p
+
 structure InvS (c : Cfg) (s : St) : Prop where
-  tok : c.tokens = s.shared + s.fired + s.discarded + s.pcs.count .decide
+  tok : c.tokens = s.shared + s.fired + s.discarded + s.pcs.count .decide + s.pcs.count .firing
   busy : ∀ i : Nat, (s.pcs[i]? = some Pc.acquire ∨ s.pcs[i]? = some Pc.wait) → 0 < c.tokens
   unfPos : 0 < s.unfired → s.shared = 0 ∧ 0 < c.tokens
   done : ∀ i : Nat, s.pcs[i]? = some Pc.done → s.shared = 0 ∨ s.ammoLeft = some 0
@@ -167,7 +248,7 @@ structure InvS (c : Cfg) (s : St) : Prop where
   unfCnt : s.unfired = s.unf.count true
   unfPc : ∀ i : Nat, s.unf[i]? = some true → s.shared = 0 ∧ Parked s.pcs[i]?
   last : s.shared = 0 → 0 < c.tokens →
-    ∃ j : Nat, s.lastDrawer = some j ∧ s.unf[j]? = some false ∧ (s.pcs[j]? = some Pc.decide ∨ Parked s.pcs[j]?)
+    ∃ j : Nat, s.lastDrawer = some j ∧ s.unf[j]? = some false ∧ Drawn s.pcs[j]?
 
 theorem getElem?_set_ne' {α : Type} (l : List α) {i j : Nat} (a : α) (h : i ≠ j) : (l.set i a)[j]? = l[j]? := by
   rw [List.getElem?_set]; simp [h]
@@ -197,19 +278,22 @@ theorem init_invS (c : Cfg) : InvS c (init c) := by
     simp only [init] at h0
     omega
 
-theorem parked_of_ne {l : List Pc} {i k : Nat} {new : Pc} (hk : k ≠ i) (h : Parked l[k]?) : Parked (l.set i new)[k]? := by
-  rw [getElem?_set_ne' l new (Ne.symm hk)]; exact h
+theorem parked_some (p : Pc) : Parked (some p) ↔ (p = .release ∨ p = .check ∨ p = .done) := by
+  simp [Parked]
+
+theorem drawn_some (p : Pc) : Drawn (some p) ↔ (p = .decide ∨ p = .firing ∨ p = .shot ∨ p = .release ∨ p = .check ∨ p = .done) := by
+  simp [Drawn, Parked]
 
 /-- a pcs-only move of instance `i` (old → new) that leaves tokens, flags and the last drawer alone -/
 theorem invS_move {c : Cfg} {s : St} (hi : InvS c s) {i : Nat} {old new : Pc} (h : s.pcs[i]? = some old)
     (s' : St) (hpcs : s'.pcs = s.pcs.set i new) (hsh : s'.shared = s.shared) (hunf : s'.unf = s.unf)
     (hunfired : s'.unfired = s.unfired) (hlast : s'.lastDrawer = s.lastDrawer)
-    (htok : c.tokens = s'.shared + s'.fired + s'.discarded + s'.pcs.count .decide)
+    (htok : c.tokens = s'.shared + s'.fired + s'.discarded + s'.pcs.count .decide + s'.pcs.count .firing)
     (hbusy : (new = .acquire ∨ new = .wait) → 0 < c.tokens)
     (hdoneNew : new = .done → s'.shared = 0 ∨ s'.ammoLeft = some 0)
     (hdoneOld : ∀ k : Nat, k ≠ i → s.pcs[k]? = some Pc.done → s'.shared = 0 ∨ s'.ammoLeft = some 0)
     (hflag : s.unf[i]? = some true → Parked (some new))
-    (hlastpc : s.shared = 0 → (old = .decide ∨ Parked (some old)) → (new = .decide ∨ Parked (some new))) :
+    (hlastpc : s.shared = 0 → Drawn (some old) → Drawn (some new)) :
     InvS c s' := by
   refine ⟨htok, ?_, ?_, ?_, ?_, by rw [hpcs, List.length_set]; exact hi.pcsLen, ?_, ?_, ?_⟩
   · intro k hk
@@ -241,31 +325,38 @@ theorem invS_move {c : Cfg} {s : St} (hi : InvS c s) {i : Nat} {old new : Pc} (h
     by_cases hji : j = i
     · simp only [hji, if_true]
       rw [hji, h] at hj3
-      have := hlastpc h0 (by
-        rcases hj3 with h1 | h1
-        · exact Or.inl (Option.some.inj h1)
-        · exact Or.inr h1)
-      rcases this with h1 | h1
-      · exact Or.inl (by rw [h1])
-      · exact Or.inr h1
+      exact hlastpc h0 hj3
     · simp only [hji, if_false]; exact hj3
-
-theorem parked_some (p : Pc) : Parked (some p) ↔ (p = .release ∨ p = .check ∨ p = .done) := by
-  simp [Parked]
 
 theorem step_invS {c : Cfg} (hc : c.perInstance = false) {s s' : St} {e : Ev} (hi : InvS c s)
     (hs : step c s e = some s') : InvS c s' := by
   have hleft : ∀ i, s.left c i = s.shared := by intro i; simp [St.left, hc]
   cases e with
+  | start i =>
+    simp only [step] at hs
+    split at hs
+    · rename_i h
+      cases hs
+      obtain ⟨_, h⟩ := h
+      obtain ⟨cw, cd, cf, cs, cr⟩ := counts_move s.pcs i .idle .check h
+      simp at cd cf
+      refine invS_move hi h _ rfl rfl rfl rfl rfl ?_ ?_ ?_ ?_ ?_ ?_
+      · have := hi.tok; simp; omega
+      · intro hn; rcases hn with hn | hn <;> cases hn
+      · intro hn; cases hn
+      · intro k _ hk; exact hi.done k hk
+      · intro _; simp [parked_some]
+      · intro _ ho; simp [drawn_some] at ho
+    · cases hs
   | chk i left =>
     simp only [step, hleft] at hs
     split at hs
     · rename_i h
       cases hs
       obtain ⟨h, hl⟩ := h
-      have cd := count_set_of s.pcs i .check (if left = 0 then .done else .acquire) .decide h
+      obtain ⟨cw, cd, cf, cs, cr⟩ := counts_move s.pcs i .check (if left = 0 then .done else .acquire) h
       refine invS_move hi h _ rfl rfl rfl rfl rfl ?_ ?_ ?_ ?_ ?_ ?_
-      · have := hi.tok; by_cases hl0 : left = 0 <;> simp [hl0] at cd ⊢ <;> omega
+      · have := hi.tok; by_cases hl0 : left = 0 <;> simp [hl0] at cd cf ⊢ <;> omega
       · intro hn
         have := hi.tok
         by_cases hl0 : left = 0
@@ -282,14 +373,14 @@ theorem step_invS {c : Cfg} (hc : c.perInstance = false) {s s' : St} {e : Ev} (h
         simp [hl0, parked_some]
       · intro h0 _
         have hl0 : left = 0 := by omega
-        simp [hl0, parked_some]
+        simp [hl0, drawn_some]
     · cases hs
   | acq i =>
     simp only [step] at hs
     split at hs
     · rename_i h
-      have cd := count_set_of s.pcs i .acquire .wait .decide h
-      simp at cd
+      obtain ⟨cw, cd, cf, cs, cr⟩ := counts_move s.pcs i .acquire .wait h
+      simp at cd cf
       have hne0 : s.ammoLeft ≠ some 0 := by
         intro h0; rw [h0] at hs; simp at hs
       have hflag : s.unf[i]? = some true → Parked (some Pc.wait) := by
@@ -305,7 +396,7 @@ theorem step_invS {c : Cfg} (hc : c.perInstance = false) {s s' : St} {e : Ev} (h
         · intro _; exact hi.busy i (Or.inl h)
         · intro hn; cases hn
         · intro k hk1 hk2; exact Or.inl (hdoneOld k hk1 hk2)
-        · intro _ ho; rcases ho with ho | ho <;> simp [Parked] at ho
+        · intro _ ho; simp [drawn_some] at ho
       · cases hs
       · cases hs
         refine invS_move hi h _ rfl rfl rfl rfl rfl ?_ ?_ ?_ ?_ hflag ?_
@@ -313,7 +404,7 @@ theorem step_invS {c : Cfg} (hc : c.perInstance = false) {s s' : St} {e : Ev} (h
         · intro _; exact hi.busy i (Or.inl h)
         · intro hn; cases hn
         · intro k hk1 hk2; exact Or.inl (hdoneOld k hk1 hk2)
-        · intro _ ho; rcases ho with ho | ho <;> simp [Parked] at ho
+        · intro _ ho; simp [drawn_some] at ho
     · cases hs
   | empty i =>
     simp only [step] at hs
@@ -321,15 +412,15 @@ theorem step_invS {c : Cfg} (hc : c.perInstance = false) {s s' : St} {e : Ev} (h
     · rename_i h
       cases hs
       obtain ⟨h, ha⟩ := h
-      have cd := count_set_of s.pcs i .acquire .done .decide h
-      simp at cd
+      obtain ⟨cw, cd, cf, cs, cr⟩ := counts_move s.pcs i .acquire .done h
+      simp at cd cf
       refine invS_move hi h _ rfl rfl rfl rfl rfl ?_ ?_ ?_ ?_ ?_ ?_
       · have := hi.tok; simp; omega
       · intro hn; rcases hn with hn | hn <;> cases hn
       · intro _; exact Or.inr ha
       · intro k _ hk; exact hi.done k hk
       · intro _; simp [parked_some]
-      · intro _ _; simp [parked_some]
+      · intro _ _; simp [drawn_some]
     · cases hs
   | tokOk i =>
     simp only [step, hleft] at hs
@@ -337,8 +428,8 @@ theorem step_invS {c : Cfg} (hc : c.perInstance = false) {s s' : St} {e : Ev} (h
     · rename_i h
       cases hs
       obtain ⟨h, hpos⟩ := h
-      have cd := count_set_of s.pcs i .wait .decide .decide h
-      simp at cd
+      obtain ⟨cw, cd, cf, cs, cr⟩ := counts_move s.pcs i .wait .decide h
+      simp at cd cf
       have hlen := lt_of_get h
       have hnoflag : s.unf[i]? ≠ some true := by
         intro hf; have := (hi.unfPc i hf).1; omega
@@ -386,8 +477,8 @@ theorem step_invS {c : Cfg} (hc : c.perInstance = false) {s s' : St} {e : Ev} (h
     · rename_i h
       cases hs
       obtain ⟨h, h0⟩ := h
-      have cd := count_set_of s.pcs i .wait .release .decide h
-      simp at cd
+      obtain ⟨cw, cd, cf, cs, cr⟩ := counts_move s.pcs i .wait .release h
+      simp at cd cf
       have htokpos := hi.busy i (Or.inr h)
       have hnoflag : s.unf[i]? ≠ some true := by
         intro hf; have := (hi.unfPc i hf).2; rw [h] at this; simp [Parked] at this
@@ -433,25 +524,56 @@ theorem step_invS {c : Cfg} (hc : c.perInstance = false) {s s' : St} {e : Ev} (h
         have hji : j ≠ i := by
           intro hji; subst hji
           rw [h] at hj3
-          rcases hj3 with h1 | h1 <;> simp [Parked] at h1
+          simp [drawn_some] at hj3
         refine ⟨j, hj1, ?_, ?_⟩
         · simp only; rw [getElem?_set_ne' s.unf true (Ne.symm hji)]; exact hj2
         · simp only; rw [pcs_after h j]; simp only [hji, if_false]; exact hj3
     · cases hs
-  | shoot i =>
+  | reqAdd i =>
     simp only [step] at hs
     split at hs
     · rename_i h
       cases hs
-      have cd := count_set_of s.pcs i .decide .release .decide h
-      simp at cd
+      obtain ⟨cw, cd, cf, cs, cr⟩ := counts_move s.pcs i .decide .firing h
+      simp at cd cf
+      refine invS_move hi h _ rfl rfl rfl rfl rfl ?_ ?_ ?_ ?_ ?_ ?_
+      · have := hi.tok; simp; omega
+      · intro hn; rcases hn with hn | hn <;> cases hn
+      · intro hn; cases hn
+      · intro k _ hk; exact hi.done k hk
+      · intro hf; have := (hi.unfPc i hf).2; rw [h] at this; simp [Parked] at this
+      · intro _ _; simp [drawn_some]
+    · cases hs
+  | shoot i k =>
+    simp only [step] at hs
+    split at hs
+    · rename_i h
+      cases hs
+      obtain ⟨h, _⟩ := h
+      obtain ⟨cw, cd, cf, cs, cr⟩ := counts_move s.pcs i .firing .shot h
+      simp at cd cf
+      refine invS_move hi h _ rfl rfl rfl rfl rfl ?_ ?_ ?_ ?_ ?_ ?_
+      · have := hi.tok; simp; omega
+      · intro hn; rcases hn with hn | hn <;> cases hn
+      · intro hn; cases hn
+      · intro k _ hk; exact hi.done k hk
+      · intro hf; have := (hi.unfPc i hf).2; rw [h] at this; simp [Parked] at this
+      · intro _ _; simp [drawn_some]
+    · cases hs
+  | respAdd i =>
+    simp only [step] at hs
+    split at hs
+    · rename_i h
+      cases hs
+      obtain ⟨cw, cd, cf, cs, cr⟩ := counts_move s.pcs i .shot .release h
+      simp at cd cf
       refine invS_move hi h _ rfl rfl rfl rfl rfl ?_ ?_ ?_ ?_ ?_ ?_
       · have := hi.tok; simp; omega
       · intro hn; rcases hn with hn | hn <;> cases hn
       · intro hn; cases hn
       · intro k _ hk; exact hi.done k hk
       · intro _; simp [parked_some]
-      · intro _ _; simp [parked_some]
+      · intro _ _; simp [drawn_some]
     · cases hs
   | discard i =>
     simp only [step] at hs
@@ -459,30 +581,31 @@ theorem step_invS {c : Cfg} (hc : c.perInstance = false) {s s' : St} {e : Ev} (h
     · rename_i h
       cases hs
       obtain ⟨h, _⟩ := h
-      have cd := count_set_of s.pcs i .decide .release .decide h
-      simp at cd
+      obtain ⟨cw, cd, cf, cs, cr⟩ := counts_move s.pcs i .decide .release h
+      simp at cd cf
       refine invS_move hi h _ rfl rfl rfl rfl rfl ?_ ?_ ?_ ?_ ?_ ?_
       · have := hi.tok; simp; omega
       · intro hn; rcases hn with hn | hn <;> cases hn
       · intro hn; cases hn
       · intro k _ hk; exact hi.done k hk
       · intro _; simp [parked_some]
-      · intro _ _; simp [parked_some]
+      · intro _ _; simp [drawn_some]
     · cases hs
-  | rel i =>
+  | rel i k =>
     simp only [step] at hs
     split at hs
     · rename_i h
       cases hs
-      have cd := count_set_of s.pcs i .release .check .decide h
-      simp at cd
+      obtain ⟨h, _⟩ := h
+      obtain ⟨cw, cd, cf, cs, cr⟩ := counts_move s.pcs i .release .check h
+      simp at cd cf
       refine invS_move hi h _ rfl rfl rfl rfl rfl ?_ ?_ ?_ ?_ ?_ ?_
       · have := hi.tok; simp; omega
       · intro hn; rcases hn with hn | hn <;> cases hn
       · intro hn; cases hn
       · intro k _ hk; exact hi.done k hk
       · intro _; simp [parked_some]
-      · intro _ _; simp [parked_some]
+      · intro _ _; simp [drawn_some]
     · cases hs
 
 /-! ### one profile per instance -/
@@ -493,6 +616,14 @@ theorem sum_set_pred : ∀ (l : List Nat) (i : Nat), i < l.length → 0 < l[i]?.
   | a :: l, 0, _, hp => by simp at hp ⊢; omega
   | a :: l, i + 1, h, hp => by
     have := sum_set_pred l i (by simpa using h) (by simpa using hp)
+    simp at this ⊢; omega
+
+theorem sum_set_zero : ∀ (l : List Nat) (i v : Nat), i < l.length → l[i]?.getD 0 = 0 →
+    (l.set i v).sum = l.sum + v
+  | [], _, _, h, _ => by simp at h
+  | a :: l, 0, v, _, hp => by simp at hp ⊢; omega
+  | a :: l, i + 1, v, h, hp => by
+    have := sum_set_zero l i v (by simpa using h) (by simpa using hp)
     simp at this ⊢; omega
 
 theorem sum_replicate_nat (n a : Nat) : (List.replicate n a).sum = n * a := by
@@ -510,30 +641,35 @@ theorem sum_zero_of_all : ∀ (l : List Nat), (∀ i : Nat, i < l.length → l[i
 structure InvP (c : Cfg) (s : St) : Prop where
   ownLen : s.own.length = c.instances
   pcsLen : s.pcs.length = c.instances
-  tok : c.instances * c.tokens = s.own.sum + s.fired + s.discarded + s.pcs.count .decide
+  tok : s.started * c.tokens = s.own.sum + s.fired + s.discarded + s.pcs.count .decide + s.pcs.count .firing
   unf0 : s.unfired = 0
   busy : ∀ i : Nat, (s.pcs[i]? = some Pc.acquire ∨ s.pcs[i]? = some Pc.wait) → 0 < s.own[i]?.getD 0
   done : ∀ i : Nat, s.pcs[i]? = some Pc.done → s.own[i]?.getD 0 = 0 ∨ s.ammoLeft = some 0
+  ownIdle : ∀ i : Nat, s.pcs[i]? = some Pc.idle → s.own[i]?.getD 0 = 0
 
 theorem init_invP (c : Cfg) : InvP c (init c) := by
-  refine ⟨by simp [init], by simp [init], by simp [init, List.count_replicate, sum_replicate_nat], rfl, ?_, ?_⟩
+  refine ⟨by simp [init], by simp [init], by simp [init, List.count_replicate, sum_replicate_nat], rfl, ?_, ?_, ?_⟩
   · intro i h
     simp only [init] at h
     rcases h with h | h <;> (rw [List.getElem?_replicate] at h; split at h <;> cases h)
   · intro i h
     simp only [init] at h
     rw [List.getElem?_replicate] at h; split at h <;> cases h
+  · intro i _
+    simp only [init]
+    rw [List.getElem?_replicate]; split <;> rfl
 
 /-- a pcs-only move that leaves the own-token buckets alone -/
 theorem invP_move {c : Cfg} {s : St} (hi : InvP c s) {i : Nat} {old new : Pc} (h : s.pcs[i]? = some old)
     (s' : St) (hpcs : s'.pcs = s.pcs.set i new) (hown : s'.own = s.own) (hunfired : s'.unfired = s.unfired)
-    (htok : c.instances * c.tokens = s'.own.sum + s'.fired + s'.discarded + s'.pcs.count .decide)
+    (htok : s'.started * c.tokens = s'.own.sum + s'.fired + s'.discarded + s'.pcs.count .decide + s'.pcs.count .firing)
     (hbusy : (new = .acquire ∨ new = .wait) → 0 < s.own[i]?.getD 0)
     (hdoneNew : new = .done → s.own[i]?.getD 0 = 0 ∨ s'.ammoLeft = some 0)
-    (hdoneOld : ∀ k : Nat, k ≠ i → s.pcs[k]? = some Pc.done → s.own[k]?.getD 0 = 0 ∨ s'.ammoLeft = some 0) :
+    (hdoneOld : ∀ k : Nat, k ≠ i → s.pcs[k]? = some Pc.done → s.own[k]?.getD 0 = 0 ∨ s'.ammoLeft = some 0)
+    (hnewIdle : new ≠ .idle) :
     InvP c s' := by
   refine ⟨by rw [hown]; exact hi.ownLen, by rw [hpcs, List.length_set]; exact hi.pcsLen, htok,
-    by rw [hunfired]; exact hi.unf0, ?_, ?_⟩
+    by rw [hunfired]; exact hi.unf0, ?_, ?_, ?_⟩
   · intro k hk
     rw [hpcs, pcs_after h k] at hk
     rw [hown]
@@ -546,20 +682,64 @@ theorem invP_move {c : Cfg} {s : St} (hi : InvP c s) {i : Nat} {old new : Pc} (h
     by_cases hki : k = i
     · simp only [hki, if_true, Option.some.injEq] at hk; rw [hki]; exact hdoneNew hk
     · simp only [hki, if_false] at hk; exact hdoneOld k hki hk
+  · intro k hk
+    rw [hpcs, pcs_after h k] at hk
+    rw [hown]
+    by_cases hki : k = i
+    · simp only [hki, if_true, Option.some.injEq] at hk; exact absurd hk hnewIdle
+    · simp only [hki, if_false] at hk; exact hi.ownIdle k hk
 
 theorem step_invP {c : Cfg} (hc : c.perInstance = true) {s s' : St} {e : Ev} (hi : InvP c s)
     (hs : step c s e = some s') : InvP c s' := by
   have hleft : ∀ i, s.left c i = s.own[i]?.getD 0 := by intro i; simp [St.left, hc]
   cases e with
+  | start i =>
+    simp only [step] at hs
+    split at hs
+    · rename_i h
+      cases hs
+      obtain ⟨_, h⟩ := h
+      obtain ⟨cw, cd, cf, cs, cr⟩ := counts_move s.pcs i .idle .check h
+      simp at cd cf
+      have hlt : i < s.own.length := by
+        have h1 := hi.ownLen; have h2 := hi.pcsLen; have h3 := lt_of_get h; omega
+      have hsum := sum_set_zero s.own i c.tokens hlt (hi.ownIdle i h)
+      refine ⟨by simpa using hi.ownLen, by simpa using hi.pcsLen, ?_, hi.unf0, ?_, ?_, ?_⟩
+      · have := hi.tok; simp only [Nat.add_mul, Nat.one_mul, hsum]; omega
+      · intro k hk
+        simp only at hk ⊢
+        rw [pcs_after h k] at hk
+        by_cases hki : k = i
+        · simp [hki] at hk
+        · simp only [hki, if_false] at hk
+          rw [getElem?_set_ne' s.own _ (Ne.symm hki)]
+          exact hi.busy k hk
+      · intro k hk
+        simp only at hk ⊢
+        rw [pcs_after h k] at hk
+        by_cases hki : k = i
+        · simp [hki] at hk
+        · simp only [hki, if_false] at hk
+          rw [getElem?_set_ne' s.own _ (Ne.symm hki)]
+          exact hi.done k hk
+      · intro k hk
+        simp only at hk ⊢
+        rw [pcs_after h k] at hk
+        by_cases hki : k = i
+        · simp [hki] at hk
+        · simp only [hki, if_false] at hk
+          rw [getElem?_set_ne' s.own _ (Ne.symm hki)]
+          exact hi.ownIdle k hk
+    · cases hs
   | chk i left =>
     simp only [step, hleft] at hs
     split at hs
     · rename_i h
       cases hs
       obtain ⟨h, hl⟩ := h
-      have cd := count_set_of s.pcs i .check (if left = 0 then .done else .acquire) .decide h
-      refine invP_move hi h _ rfl rfl rfl ?_ ?_ ?_ ?_
-      · have := hi.tok; by_cases hl0 : left = 0 <;> simp [hl0] at cd ⊢ <;> omega
+      obtain ⟨cw, cd, cf, cs, cr⟩ := counts_move s.pcs i .check (if left = 0 then .done else .acquire) h
+      refine invP_move hi h _ rfl rfl rfl ?_ ?_ ?_ ?_ ?_
+      · have := hi.tok; by_cases hl0 : left = 0 <;> simp [hl0] at cd cf ⊢ <;> omega
       · intro hn
         by_cases hl0 : left = 0
         · simp [hl0] at hn
@@ -569,13 +749,14 @@ theorem step_invP {c : Cfg} (hc : c.perInstance = true) {s s' : St} {e : Ev} (hi
         · left; omega
         · simp [hl0] at hn
       · intro k _ hk; exact hi.done k hk
+      · by_cases hl0 : left = 0 <;> simp [hl0]
     · cases hs
   | acq i =>
     simp only [step] at hs
     split at hs
     · rename_i h
-      have cd := count_set_of s.pcs i .acquire .wait .decide h
-      simp at cd
+      obtain ⟨cw, cd, cf, cs, cr⟩ := counts_move s.pcs i .acquire .wait h
+      simp at cd cf
       have hne0 : s.ammoLeft ≠ some 0 := by
         intro h0; rw [h0] at hs; simp at hs
       have hdoneOld : ∀ k : Nat, k ≠ i → s.pcs[k]? = some Pc.done → s.own[k]?.getD 0 = 0 := by
@@ -584,14 +765,14 @@ theorem step_invP {c : Cfg} (hc : c.perInstance = true) {s s' : St} {e : Ev} (hi
         · exact absurd h1 hne0
       split at hs
       · cases hs
-        refine invP_move hi h _ rfl rfl rfl ?_ ?_ ?_ ?_
+        refine invP_move hi h _ rfl rfl rfl ?_ ?_ ?_ ?_ (by decide)
         · have := hi.tok; simp; omega
         · intro _; exact hi.busy i (Or.inl h)
         · intro hn; cases hn
         · intro k hk1 hk2; exact Or.inl (hdoneOld k hk1 hk2)
       · cases hs
       · cases hs
-        refine invP_move hi h _ rfl rfl rfl ?_ ?_ ?_ ?_
+        refine invP_move hi h _ rfl rfl rfl ?_ ?_ ?_ ?_ (by decide)
         · have := hi.tok; simp; omega
         · intro _; exact hi.busy i (Or.inl h)
         · intro hn; cases hn
@@ -603,9 +784,9 @@ theorem step_invP {c : Cfg} (hc : c.perInstance = true) {s s' : St} {e : Ev} (hi
     · rename_i h
       cases hs
       obtain ⟨h, ha⟩ := h
-      have cd := count_set_of s.pcs i .acquire .done .decide h
-      simp at cd
-      refine invP_move hi h _ rfl rfl rfl ?_ ?_ ?_ ?_
+      obtain ⟨cw, cd, cf, cs, cr⟩ := counts_move s.pcs i .acquire .done h
+      simp at cd cf
+      refine invP_move hi h _ rfl rfl rfl ?_ ?_ ?_ ?_ (by decide)
       · have := hi.tok; simp; omega
       · intro hn; rcases hn with hn | hn <;> cases hn
       · intro _; exact Or.inr ha
@@ -617,13 +798,13 @@ theorem step_invP {c : Cfg} (hc : c.perInstance = true) {s s' : St} {e : Ev} (hi
     · rename_i h
       cases hs
       obtain ⟨h, hpos⟩ := h
-      have cd := count_set_of s.pcs i .wait .decide .decide h
-      simp at cd
+      obtain ⟨cw, cd, cf, cs, cr⟩ := counts_move s.pcs i .wait .decide h
+      simp at cd cf
       have hlt : i < s.own.length := by
         have h1 := hi.ownLen; have h2 := hi.pcsLen; have h3 := lt_of_get h; omega
       have hsum := sum_set_pred s.own i hlt hpos
       simp only [St.draw, hc, if_true]
-      refine ⟨by simpa using hi.ownLen, by simpa using hi.pcsLen, ?_, hi.unf0, ?_, ?_⟩
+      refine ⟨by simpa using hi.ownLen, by simpa using hi.pcsLen, ?_, hi.unf0, ?_, ?_, ?_⟩
       · have := hi.tok; simp; omega
       · intro k hk
         simp only at hk ⊢
@@ -641,6 +822,14 @@ theorem step_invP {c : Cfg} (hc : c.perInstance = true) {s s' : St} {e : Ev} (hi
         · simp only [hki, if_false] at hk
           rw [getElem?_set_ne' s.own _ (Ne.symm hki)]
           exact hi.done k hk
+      · intro k hk
+        simp only at hk ⊢
+        rw [pcs_after h k] at hk
+        by_cases hki : k = i
+        · simp [hki] at hk
+        · simp only [hki, if_false] at hk
+          rw [getElem?_set_ne' s.own _ (Ne.symm hki)]
+          exact hi.ownIdle k hk
     · cases hs
   | tokEnd i =>
     simp only [step, hleft] at hs
@@ -649,14 +838,41 @@ theorem step_invP {c : Cfg} (hc : c.perInstance = true) {s s' : St} {e : Ev} (hi
       have := hi.busy i (Or.inr h.1)
       omega
     · cases hs
-  | shoot i =>
+  | reqAdd i =>
     simp only [step] at hs
     split at hs
     · rename_i h
       cases hs
-      have cd := count_set_of s.pcs i .decide .release .decide h
-      simp at cd
-      refine invP_move hi h _ rfl rfl rfl ?_ ?_ ?_ ?_
+      obtain ⟨cw, cd, cf, cs, cr⟩ := counts_move s.pcs i .decide .firing h
+      simp at cd cf
+      refine invP_move hi h _ rfl rfl rfl ?_ ?_ ?_ ?_ (by decide)
+      · have := hi.tok; simp; omega
+      · intro hn; rcases hn with hn | hn <;> cases hn
+      · intro hn; cases hn
+      · intro k _ hk; exact hi.done k hk
+    · cases hs
+  | shoot i k =>
+    simp only [step] at hs
+    split at hs
+    · rename_i h
+      cases hs
+      obtain ⟨h, _⟩ := h
+      obtain ⟨cw, cd, cf, cs, cr⟩ := counts_move s.pcs i .firing .shot h
+      simp at cd cf
+      refine invP_move hi h _ rfl rfl rfl ?_ ?_ ?_ ?_ (by decide)
+      · have := hi.tok; simp; omega
+      · intro hn; rcases hn with hn | hn <;> cases hn
+      · intro hn; cases hn
+      · intro k _ hk; exact hi.done k hk
+    · cases hs
+  | respAdd i =>
+    simp only [step] at hs
+    split at hs
+    · rename_i h
+      cases hs
+      obtain ⟨cw, cd, cf, cs, cr⟩ := counts_move s.pcs i .shot .release h
+      simp at cd cf
+      refine invP_move hi h _ rfl rfl rfl ?_ ?_ ?_ ?_ (by decide)
       · have := hi.tok; simp; omega
       · intro hn; rcases hn with hn | hn <;> cases hn
       · intro hn; cases hn
@@ -668,22 +884,23 @@ theorem step_invP {c : Cfg} (hc : c.perInstance = true) {s s' : St} {e : Ev} (hi
     · rename_i h
       cases hs
       obtain ⟨h, _⟩ := h
-      have cd := count_set_of s.pcs i .decide .release .decide h
-      simp at cd
-      refine invP_move hi h _ rfl rfl rfl ?_ ?_ ?_ ?_
+      obtain ⟨cw, cd, cf, cs, cr⟩ := counts_move s.pcs i .decide .release h
+      simp at cd cf
+      refine invP_move hi h _ rfl rfl rfl ?_ ?_ ?_ ?_ (by decide)
       · have := hi.tok; simp; omega
       · intro hn; rcases hn with hn | hn <;> cases hn
       · intro hn; cases hn
       · intro k _ hk; exact hi.done k hk
     · cases hs
-  | rel i =>
+  | rel i k =>
     simp only [step] at hs
     split at hs
     · rename_i h
       cases hs
-      have cd := count_set_of s.pcs i .release .check .decide h
-      simp at cd
-      refine invP_move hi h _ rfl rfl rfl ?_ ?_ ?_ ?_
+      obtain ⟨h, _⟩ := h
+      obtain ⟨cw, cd, cf, cs, cr⟩ := counts_move s.pcs i .release .check h
+      simp at cd cf
+      refine invP_move hi h _ rfl rfl rfl ?_ ?_ ?_ ?_ (by decide)
       · have := hi.tok; simp; omega
       · intro hn; rcases hn with hn | hn <;> cases hn
       · intro hn; cases hn
@@ -701,13 +918,17 @@ theorem run_inv {c : Cfg} {P : St → Prop} (hstep : ∀ s s' e, P s → step c 
     · rename_i s1 hs1; exact run_inv hstep es s1 s' (hstep s s1 e hp hs1) h
     · cases h
 
-theorem count_of_terminal {s : St} (h : s.terminal = true) (p : Pc) (hp : p ≠ .done) : s.pcs.count p = 0 := by
+/-- at the end of the pool every instance is `done` or was never started -/
+theorem count_of_terminal {s : St} (h : s.terminal = true) (p : Pc) (hp : p ≠ .done) (hp' : p ≠ .idle) :
+    s.pcs.count p = 0 := by
   unfold St.terminal at h
   rw [List.all_eq_true] at h
   apply List.count_eq_zero.mpr
   intro hm
   have := h p hm
   simp at this
-  exact hp this
+  rcases this with h1 | h1
+  · exact hp h1
+  · exact hp' h1
 
 end Pandora.Proofs.C03
